@@ -24,6 +24,7 @@ type execExtra struct {
 	havocAll          bool
 	curSitePos        token.Pos
 	missingAnchors    []string
+	byNameCall        int
 	stepStart         map[*SiteSpec]*State
 	keyFacts          []*Node
 	siteBindings      map[*SiteSpec]int
